@@ -514,6 +514,10 @@ class Resolver:
                 mt = self.m.find_method(owner, at[2])
                 if mt is not None:
                     rt = self.anno(mt.module, mt.node.returns)
+                    if rt[0] == "callable":
+                        sel = self.returned_method(mt)
+                        if sel is not None:
+                            return sel
                     # classmethod constructors annotated with the subclass name are fine as-is
                     if rt == UNK:
                         rt = self.specialised_return(mt, e, fi, env)
